@@ -8,7 +8,7 @@
     10  model set_val (real)     fmt r o raw arr vd              -> codes, flags, read-back values
 *)
 From Coq Require Import ZArith List Bool.
-From FxpVerif Require Import Spec SpecArith NP Store Status Convert Arith Div Conv Bitwise Strings Dtype Wire.
+From FxpVerif Require Import Spec SpecArith NP Store Status Convert Arith Div Conv Bitwise Strings Dtype Shift Wire.
 Import ListNotations.
 Open Scope Z_scope.
 
@@ -150,5 +150,12 @@ Definition dispatch (req : list Z) : list Z :=
                 (fun l => match parse_dtype (string_of_codes l) with
                           | Some (s, n, fr, cx) => [0] ++ ebool s ++ [n; fr] ++ ebool cx
                           | None => [1] end) t
+  (* 90: x << n ; 91: x >> n (array) -- mode 0 expand, 1 keep *)
+  | 90 :: t => run (m <- dZ ;; f <- dfmt ;; c <- dZ ;; n <- dZ ;; dret (m, f, c, n))
+                (fun '(m, f, c, n) => eoutcome (fun p => efmt (fst p) ++ ewres (fst p) (snd p))
+                                               (fxp_lshift (if m =? 0 then ShExpand else ShKeep) f c n)) t
+  | 91 :: t => run (m <- dZ ;; f <- dfmt ;; cs <- dlist dZ ;; n <- dZ ;; dret (m, f, cs, n))
+                (fun '(m, f, cs, n) => eoutcome (fun p => efmt (fst p) ++ elist (fun z => [z]) (snd p))
+                                                (rshift_fmt_codes (if m =? 0 then ShExpand else ShKeep) f cs n)) t
   | _ => bad_request
   end.
